@@ -463,7 +463,8 @@ fn gen_tape(rng: &mut Rng, max_blocks: u64) -> Vec<Vec<u8>> {
     (0..n)
         .map(|_| {
             let flag = if rng.chance(1, 6) { 0 } else { *rng.pick(&[0xFFu8, 0xFF, 0x80, 0x01, 0x5A]) };
-            let len = *rng.pick(&[0usize, 1, 2, 5, 17, 30, 40]);
+            // mostly short blocks (short histories); one in five spans several 128-byte read buffers
+            let len = if rng.chance(1, 5) { *rng.pick(&[127usize, 129, 200, 300, 450]) } else { *rng.pick(&[0usize, 1, 2, 5, 17, 30, 40]) };
             mk_block(flag, &rng.bytes(len), rng.bool())
         })
         .collect()
